@@ -1,6 +1,6 @@
 import sys, itertools, random
 import rtamt
-assert rtamt.__file__.startswith('/tmp/seed7_C05'), rtamt.__file__
+assert rtamt.__file__.startswith('/repo'), rtamt.__file__
 
 def mk(formula, vars_, pastify=False, sem=None):
     if sem is None:
